@@ -12,6 +12,11 @@ from .driver import CheckRun, scaled
 WORLD = "world_store"
 N_SCEN = 8000  # fixed scenario grid per property: indices 0..N_SCEN-1
 SIZES = {"quick": 2500, "thorough": 8000}   # thorough = the whole grid
+# large-scale family (world_store.LARGE_BASE + 0..N_LARGE-1): a thousand and
+# more spans per scenario, batch sizes around the default 1000
+N_LARGE = 400
+SIZES_LARGE = {"quick": {"C09": 16, "C10": 64, "C11": 24, "C12": 24},
+               "thorough": {p: N_LARGE for p in ("C09", "C10", "C11", "C12")}}
 
 ASSUMPTIONS = [
     "store model of sim/world_store.py written from the documentation: first "
@@ -192,12 +197,16 @@ def build_units(prop, tier, seed, scale, findings):
         units += c10_exhaustive(4 if tier == "quick" else 6)
     if prop == "C09":
         units += c09_exhaustive(tier)
+    nl = scaled(SIZES_LARGE[tier][prop], scale)
+    rl = random.Random(core.derive(seed, prop, "large-scenarios"))
+    idxs += [ws.LARGE_BASE + i
+             for i in sorted(rl.sample(range(N_LARGE), min(nl, N_LARGE)))]
     for i in dict.fromkeys(idxs):
         u = {"kind": "store", "prop": prop, "idx": i,
              "hash_class": hash_class_of(i),
              "differential": prop == "C11"}
         units.append(u)
-        if prop == "C09":
+        if prop == "C09" and i < ws.LARGE_BASE:
             scen = ws.gen_scenario(prop, i)
             for k in (1, 2):
                 units.append({"kind": "store", "prop": prop, "idx": i,
@@ -305,7 +314,9 @@ def main(prop, argv=None):
         probes = {"integrity_fallback_runs": 0, "fallback_calls": 0,
                   "root_paging_over_one_page": 0,
                   "same_shape_groups": 0, "differential_worlds": 0,
-                  "batch_smaller_than_a_trace": 0}
+                  "batch_smaller_than_a_trace": 0,
+                  "large_scale_scenarios": 0,
+                  "flush_batch_of_1000_or_more_spans_in_fallback": 0}
         batch_sizes: dict = {}
         states = set()
         distinct = set()
@@ -319,6 +330,13 @@ def main(prop, argv=None):
                 run.harness_error(f"{prop}:{u['idx']}: {st} "
                                   f"{str(r.get('detail'))[:300]}")
                 continue
+            if u["idx"] >= ws.LARGE_BASE:
+                probes["large_scale_scenarios"] += 1
+                if r.get("batch_size", 0) >= 1000 and r.get(
+                        "n_spans", 0) >= 1000 and r.get("probes", {}).get(
+                        "fallback"):
+                    probes["flush_batch_of_1000_or_more_spans_in_fallback"] \
+                        += 1
             for e in r["errs"].get(prop, []):
                 if e[0] == "harness":
                     run.harness_error(f"{r['id']}: {e[1]}")
